@@ -184,6 +184,21 @@ def drains_buffer(P, R, rule='C08.MPT.4'):
     R.floor(rule, 1)
 
 
+def line_splitting(P, R, rule='C08.TAB.2'):
+    """Server lines end in LF, optionally preceded by CR: the splitter is asked for exactly that (EVBUFFER_EOL_CRLF).
+    Splitting at a bare CR would turn the rest of a trailing free-text parameter into a line of its own (naming any
+    client it likes); splitting at LF only would leave the CR glued to the last parameter of every CRLF line."""
+    fn = reader(P)
+    rl = [s for s in fn.calls('evbuffer_readln')]
+    if not rl:
+        raise AnalysisBroken('reader does not call evbuffer_readln')
+    for s in rl:
+        a = s.ev['args']
+        mode = a[2] if len(a) > 2 else {}
+        R.ob(rule, mode.get('k') == 'enum' and mode.get('name') == 'EVBUFFER_EOL_CRLF', s, 'input is split into lines at LF with an optional preceding CR (mode %s)' % sx(mode), key='eol-mode')
+    R.floor(rule, 1)
+
+
 MIN_ARGC = {'C': 5, 'N': 2, 'P': 2, 'U': 3, 'n': 2, 'E': 3, 'M': 3, 'X': 4, 'x': 4, '?': 2}
 
 
@@ -507,6 +522,7 @@ def run(P, R, tier):
     terminator_and_arity(P, R)
     line_buffer_writes(P, R)
     drains_buffer(P, R)
+    line_splitting(P, R)
     # a timer that outlives its request fires on freed memory: the timer lives exactly as long as the request
     from . import c10
     cl = c10.cleanup_fn(P, Remap(R, {'C10.MPT.1': 'C08.TMR.1', 'C10.WIRE.1': 'C08.TMR.1'}))
@@ -518,4 +534,7 @@ def run(P, R, tier):
     cl4 = c04.lookup_discipline(P, R4)
     c04.effects_guarded(P, R4, cl4)
     c04.lookup_skips(P, R4, cl4)
+    # a text slice handed on starts inside the reply: its offset is covered by the bytes that were tested
+    from . import c05
+    c05.slices(P, Remap(R, {'C05.TAB.1': 'C08.TAB.3'}))
     return EXPLANATION, ASSUMPTIONS
